@@ -26,18 +26,35 @@ def gen_reset_consts(ctx):
     if rc != 0: raise lib.CheckError('reset_probe failed: ' + err)
     if ctx.write_generated('Generated/ResetConsts.v', out):
         ctx.log('Generated/ResetConsts.v changed: dependent theorems are re-checked')
+    # the extracted model has the constants compiled in: re-extract it when they are not the ones it was built with
+    import hashlib, fcntl
+    stamp = os.path.join(lib.ROOT, 'build', 'modelrun_reset.consts')
+    h = hashlib.md5(out.encode()).hexdigest()
+    exe = os.path.join(lib.ROOT, 'build', 'modelrun_reset')
+    if not os.path.exists(exe) or not os.path.exists(stamp) or open(stamp).read().strip() != h:
+        ctx.log('re-extracting modelrun_reset for the current constants')
+        lock = open(os.path.join(lib.COQ, '.lock'), 'w'); fcntl.flock(lock, fcntl.LOCK_EX)
+        try:
+            for f in ('Generated/ResetConsts.v', 'Reset/BuilderState.v', 'Extract/Extract_reset.v'):
+                rc, o = lib.sh(['coqc', '-Q', '.', 'Flatcc', f], cwd=lib.COQ, timeout=900)
+                if rc != 0: raise lib.CheckError('coqc %s failed: %s' % (f, o[-1500:]))
+        finally:
+            fcntl.flock(lock, fcntl.LOCK_UN); lock.close()
+        rc, o = lib.sh([os.path.join(lib.ROOT, 'bin', 'build_modelrun'), 'reset'], timeout=900)
+        if rc != 0: raise lib.CheckError('build_modelrun reset failed: ' + o[-1500:])
+        open(stamp, 'w').write(h)
     return {m.group(1): int(m.group(2)) for m in re.finditer(r'Definition (\S+) : Z := (-?\d+)\.', out)}
 
 
-def build_harness(ctx, name='reset_hist', extra_defs=()):
+def build_harness(ctx, name='reset_hist', extra_defs=(), ndebug=True, out_name=None):
     gdir = os.path.join(ctx.bdir, 'gen'); os.makedirs(gdir, exist_ok=True)
     rc, out = ctx.gen(os.path.join(lib.ROOT, 'gen', 'c14_schema.fbs'), gdir, opts=('-a', '--json'))
     if rc != 0: raise lib.BuildFailure('flatcc -a --json gen/c14_schema.fbs', out)
     # PORTABLE_UNALIGNED_ACCESS=0: the JSON parser's 8-byte symbol loads at odd addresses are an x86 idiom that UBSan's
     # alignment check reports; not this property's subject
-    defs = ['-DNDEBUG', '-DPORTABLE_UNALIGNED_ACCESS=0'] + list(extra_defs)
+    defs = (['-DNDEBUG'] if ndebug else []) + ['-DPORTABLE_UNALIGNED_ACCESS=0'] + list(extra_defs)
     objs = ctx.rt_objs(san=True, defs=defs)
-    exe = ctx.cc([os.path.join(lib.ROOT, 'harness', name + '.c')] + objs, os.path.join(ctx.bdir, name), san=True,
+    exe = ctx.cc([os.path.join(lib.ROOT, 'harness', name + '.c')] + objs, os.path.join(ctx.bdir, out_name or name), san=True,
                  defs=defs, incs=['-I' + gdir, '-I' + os.path.join(lib.ROOT, 'harness')])
     return exe
 
@@ -207,6 +224,32 @@ def run(ctx):
     add_pair('refmap', ['rm:1', 'ri:300'] + refs[0][1].ops[:5], 'rs:0:0', refs_ho[0][1], [], False)
     add_pair('refmap', ['rm:1', 'ri:5000', 'sb:0:0:0', 'st:2'], 'rs:0:1', refs[0][1], [], False)
 
+    # ---------------------------------------------------------------- F6: pooled emitter pages reused at BOTH ends after reset
+    def many_vtables(ntab, first=0):
+        """top-level buffer with ntab tables of pairwise distinct vtables (table i has its single field at id i): the clustered
+        vtables push 4 + 2 * (i + 1) bytes each at the back of the buffer"""
+        s = Script(); s.emit('sb:0:0:0'); ks = []
+        for i in range(first, first + ntab):
+            s.emit('st:%d' % (i + 1)); s.emit('ta:%d:1:1:%02x' % (i, (i * 7 + 1) & 255)); ks.append(s.emit('et'))
+        s.emit('so')
+        for a in range(0, len(ks), 50): s.emit('xo:' + ','.join('$%d' % k for k in ks[a:a + 50]))
+        v = s.emit('eo'); s.emit('st:1'); s.emit('to:0:$%d' % v); r = s.emit('et'); s.emit('eb:$%d' % r)
+        return s
+    def big_front(nbytes):
+        return Script(['sb:0:0:0', 'st:1', 'cv:%s:%d:1:1:4294967295' % ('a5' * nbytes, nbytes), 'to:0:$2', 'et', 'eb:$4'])
+    back_refs = [many_vtables(45), many_vtables(80), many_vtables(60, first=3)]
+    if ctx.thorough: back_refs += [many_vtables(120), many_vtables(200)]
+    bi = 0
+    for nb in ((9000, 20000, 40000) if not ctx.thorough else (6000, 9000, 12000, 20000, 40000, 100000)):
+        for bref in back_refs:
+            for rv in RESET_VARIANTS:
+                bi += 1
+                if not ctx.thorough and bi % 2: continue
+                add_pair('pool_pages_back_growth', big_front(nb).ops, rv, bref, [], True, cfg='0:0' if bi % 4 else '1:1', meta={'first_build_bytes': nb})
+    # and the mirror image: large back first, then large front
+    add_pair('pool_pages_back_growth', many_vtables(120).ops, 'rs:0:0', big_front(15000), [], True)
+    add_pair('pool_pages_back_growth', many_vtables(120).ops, 'rs:0:1', many_vtables(90), [], True)
+
     # ---------------------------------------------------------------- F7: an allocator that really honours reduce_buffers
     for name, bs, model in rich[:2]:
         for cut in range(2, len(bs.ops), 3):
@@ -352,6 +395,13 @@ def run(ctx):
                 continue
             ncorr += 1
             j, tok, f, x, y = unexplained[0]
+            POLICY = set(CAP_FIELDS) | {'ds_limit', 'limit_level', 'ht_width', 'frame_ptr', 'vd_end'}
+            if all(u[2] in POLICY for u in unexplained):
+                # only the sizing policy of flatcc_builder_default_alloc (a separate obligation: the allocator model of BuilderState.v,
+                # tied by these capacity snapshots) differs; the property does not fix buffer sizes, no failing input for it was found
+                ctx.broken_obligation('default-alloc-policy-model', {'first_difference': {'op_index': j, 'op': tok, 'field': f, 'impl': x, 'model': y},
+                                      'harness_line': c.impl_line()[:4000], 'model_line': c.model_line(True)[:4000]})
+                continue
             ctx.violation('corr:%s:%s' % (c.klass.split(':')[0], f),
                           'model and implementation disagree at op %d `%s` (%s): impl %s, model %s' % (j, tok, f, str(x)[:80], str(y)[:80]),
                           {'harness_line': c.impl_line(), 'model_line': c.model_line(True), 'op_index': j, 'field': f, 'impl': x, 'model': y})
